@@ -220,6 +220,85 @@ def apply_tree(sl):
         1 for fs in tree.values() for f in fs if f in BINARY))
 
 
+def bare_prepare(sl):
+    """BareProvisioner.prepare / _provisioner_variables with the real ElasticsearchInstaller (install/hook steps stubbed): every config
+    base of the car, then of every plugin, is applied in order into the installation with the composed variables"""
+    n_bases = concrete(fresh_int("car_config_bases", 1, 3))
+    n_plugins = concrete(fresh_int("plugins", 0, 2))
+    car_x = fresh_int("car_value_of_x") if bool(fresh_bool("car_defines_x")) else None
+    car_vars = {"runtime.jdk": "17", "runtime.jdk.bundled": "true"}
+    if car_x is not None:
+        car_vars["x"] = car_x
+    if bool(fresh_bool("car_tries_to_set_internal_variables")):
+        car_vars.update({"http_port": "1", "node_name": "evil", "network_host": "0.0.0.0", "cluster_settings": {"evil": True}})
+    car = team.Car("c", None, ["/team/base%d/templates" % i for i in range(n_bases)], car_vars)
+    applied, hooks = [], []
+
+    class Hook:
+        def __init__(self, c):
+            pass
+
+        def can_load(self):
+            return False
+
+        def invoke(self, phase, variables=None, **kw):
+            hooks.append((phase, variables))
+            variables["x"] = "changed-by-hook"  # hooks only get a copy
+
+    inst = provisioner.ElasticsearchInstaller(car, java_home="/java", node_name="rally-node-0", cluster_name="c", node_root_dir="/root-dir",
+                                              all_node_ips=["10.0.0.1"], all_node_names=["rally-node-0"], ip="10.0.0.1", http_port=39200,
+                                              hook_handler_class=Hook)
+
+    def fake_install(binary):
+        inst.es_home_path = "/root-dir/install/elasticsearch-8.0.0"
+        inst.data_paths = inst._data_paths()
+
+    inst.install = fake_install
+    inst.delete_pre_bundled_configuration = lambda: None
+    plugins = []
+    for i in range(n_plugins):
+        moved = bool(fresh_bool("plugin%d_moved_to_module" % i))
+        pname = ["repository-s3", "repository-gcs"][i] if moved else "plug%d" % i  # these moved into modules unless listed as core plugins
+        pv = {}
+        py = fresh_int("plugin%d_value_of_y" % i) if bool(fresh_bool("plugin%d_defines_y" % i)) else None
+        if py is not None:
+            pv["y"] = py
+        d = team.PluginDescriptor(pname, variables=pv, config_paths=["/team/plugins/plug%d/templates" % i])
+        pi = provisioner.PluginInstaller(d, java_home="/java", hook_handler_class=Hook)
+        pi.install = lambda root, url=None, _i=i: applied.append(("install-plugin", _i, root))
+        plugins.append((pi, moved, py, pname))
+    bp = provisioner.BareProvisioner(inst, [p[0] for p in plugins], apply_config=lambda src, target, v: applied.append(("apply", src, target, v)))
+    nc = bp.prepare({"elasticsearch": "/dist/es.tar.gz"})
+    core.trace("applied", len(applied))
+    core.note("applied", [a[:3] for a in applied])
+    applies = [a for a in applied if a[0] == "apply"]
+    want_src = list(car.config_paths) + ["/team/plugins/plug%d/templates" % i for i in range(n_plugins)]
+    observe("every config base of the car, then every plugin's, is applied once, in order, into the installation",
+            [a[1] for a in applies] == want_src and all(a[2] == "/root-dir/install/elasticsearch-8.0.0" for a in applies))
+    for i in range(n_plugins):
+        k = applied.index(("install-plugin", i, "/root-dir/install/elasticsearch-8.0.0")) if ("install-plugin", i, "/root-dir/install/elasticsearch-8.0.0") in applied else -1
+        observe("plugin %d is installed before its configuration is applied" % i, k >= 0 and applied[k + 1][0] == "apply" and applied[k + 1][1] == want_src[n_bases + i])
+    v = applies[0][3]
+    observe("all templates are rendered with the same variables", all(a[3] is v or a[3] == v for a in applies))
+    observe("Rally's own node variables win over the car's", v["http_port"] == "39200" and v["node_name"] == "rally-node-0" and v["network_host"] == "10.0.0.1"
+            and v["install_root_path"] == "/root-dir/install/elasticsearch-8.0.0" and v["data_paths"] == ["/root-dir/install/elasticsearch-8.0.0/data"])
+    if car_x is not None:
+        observe("car variables reach the templates", "x" in v and (v["x"] is car_x or v["x"] == car_x))
+    last_y = None
+    for (_, _, py, _) in plugins:
+        if py is not None:
+            last_y = py
+    if last_y is not None:
+        observe("plugin variables reach the templates (later plugins win)", "y" in v and (v["y"] is last_y or v["y"] == last_y))
+    mandatory = [pname for (_, moved, _, pname) in plugins if not moved]
+    observe("cluster_settings is Rally's own: exactly the installed plugins that are not modules are mandatory",
+            v["cluster_settings"] == ({"plugin.mandatory": mandatory} if mandatory else {}))
+    observe("install hooks run once per installer after all configuration was applied and only get a copy of the variables",
+            len(hooks) == 1 + n_plugins and all(h[1] is not v for h in hooks) and v.get("x") != "changed-by-hook")
+    observe("the node configuration names this node's own paths", nc.node_name == "rally-node-0" and nc.binary_path == "/root-dir/install/elasticsearch-8.0.0"
+            and nc.data_paths == ["/root-dir/install/elasticsearch-8.0.0/data"] and nc.node_root_path == "/root-dir" and nc.ip == "10.0.0.1")
+
+
 def plain_text_kinds(sl):
     for f in PLAIN + ["a.json", "b.yaml", "c.txt", "d.ini"]:
         observe("%s is a template" % f, provisioner.plain_text("/x/" + f))
@@ -277,6 +356,12 @@ HARNESSES = [
             stubs=["os.walk over an in-memory tree with symbolic file presence", "jinja2.FileSystemLoader replaced by a DictLoader over the in-memory tree (Environment and rendering are the real Jinja2)", "open/shutil.copy/ensure_dir recorders"],
             bounds={"config bases": 2, "directories": DIRS, "files per directory": "1 template + 1 binary, each present or absent (plus one fixed template); every template with or without a final newline"},
             doc="templates rendered into the same relative path with append, binaries copied"),
+    Harness("bare_prepare", bare_prepare, "symbolic", lambda tier: [{}], reads=READS + [provisioner.BareProvisioner.prepare, provisioner.BareProvisioner._provisioner_variables],
+            stubs=["ElasticsearchInstaller.install (sets es_home_path/data_paths as the real one does after unpacking), delete_pre_bundled_configuration, "
+                   "PluginInstaller.install, bootstrap hook handler, apply_config recorder (the real _apply_config is covered by apply_tree)"],
+            bounds={"config bases": "1..3", "plugins": "0..2, each moved to a module or not", "values": "unbounded symbolic integers"},
+            assumptions=["plugin variables named like Rally's internal variables are not part of the claim (the statement is about cars; DESIGN §12.2)"],
+            doc="prepare applies every config base in order with the composed variables; internal variables and cluster_settings are Rally's own"),
     Harness("plain_text_kinds", plain_text_kinds, "bounded-exhaustive", lambda tier: [{}], reads=READS, doc="template vs binary by extension"),
     Harness("cleanup", cleanup, "symbolic", lambda tier: [{}], reads=READS, stubs=["os.path.exists / shutil.rmtree over a symbolic set of existing paths"],
             bounds={"data paths": "any subset of 4 candidates incl. one inside the install dir and one sharing its name as a prefix"},
